@@ -791,7 +791,9 @@ class AutoSerialize:
 
         # Handle list/tuple containers
         if isinstance(value, (list, tuple)):
-            group.attrs["_container_type"] = type(value).__name__
+            # A set is serialized through its list of members: keep the "set" marker
+            if group.attrs.get("_container_type") != "set":
+                group.attrs["_container_type"] = type(value).__name__
             # Fast-path: homogeneous numeric scalars → single ndarray
             try:
                 is_all_numeric = len(value) > 0 and all(
@@ -966,6 +968,12 @@ class AutoSerialize:
                 return seq_result
 
         elif ctype == "set":
+            # Fast-path: ndarray-encoded homogeneous numeric members
+            if (
+                group.attrs.get("_sequence_encoding") == "ndarray"
+                and "values" in group.array_keys()
+            ):
+                return set(AutoSerialize._read_array_np(group, "values").tolist())
             # Convert back from list to set
             items = []
             for i in range(
